@@ -347,8 +347,97 @@ OPS = [
 ]
 
 
+def _after_restart(ctx, res):
+    """A client that already holds discovery data, a restart of the remote engine, then 2..4
+    operations in flight at once: every one of them gets a notInTimeWindow report for its first
+    request and has to recover by itself (re-discovery + one retransmission) — whatever the
+    others are doing in the meantime (seeded C14-41: a per-client "resyncing" flag).  Oracle only:
+    each operation returns its solo result."""
+    from puresnmp import Client
+    from harness import opslib as OL
+
+    rng = ctx.rng
+    pool = [OPS[0], OPS[2], OPS[3], OPS[5], OPS[7], OPS[1]]
+    for level in ("auth", "authpriv"):
+        proto = ("v3", level)
+        solo = {}
+        for nops in (2, 3, 4):
+            for policy in ("lowest", "highest", "rr", "random"):
+                for rep in range(ctx.budget(1, 4)):
+                    ops = [pool[(k + rep) % len(pool)] for k in range(nops)] if policy != "random" else [rng.choice(pool) for _ in range(nops)]
+                    for op in ops:
+                        if repr(op) not in solo:
+                            solo[repr(op)] = run_schedule_user(op, proto, 0)["results"][0]
+                    agent = RA.Agent(db=list(DB), hook=ro_hook)
+                    sender = SchedSender(agent)
+                    client = Client("127.0.0.1", W.make_client(agent, "v3", level, user="usr0").config.credentials, sender=sender)
+                    results = [None] * nops
+                    chosen = []
+
+                    async def wrap(i, op, client=client, results=results):
+                        OP_INDEX.set(i)
+                        try:
+                            results[i] = ["ok", canon(op, await op_coro(client, op))]
+                        except Exception as exc:  # noqa: BLE001
+                            results[i] = ["error", RA.canon_exc(exc)]
+
+                    async def main(ops=ops, agent=agent, sender=sender, policy=policy, chosen=chosen):
+                        warm = [None]
+
+                        async def w0():
+                            OP_INDEX.set(99)
+                            warm[0] = await client.get(RA.OID(OPS[0][1]))
+
+                        t0 = asyncio.ensure_future(w0())
+                        for _ in range(50):
+                            for _ in range(12):
+                                await asyncio.sleep(0)
+                            if not sender.pending:
+                                break
+                            sender.release(99)
+                        await t0
+                        agent.v3.boots += 1  # the engine restarts
+                        tasks = [asyncio.ensure_future(wrap(i, op)) for i, op in enumerate(ops)]
+                        last = {}
+                        for step in range(400):
+                            for _ in range(12):
+                                await asyncio.sleep(0)
+                            enabled = sorted(sender.pending)
+                            if not enabled:
+                                break
+                            if policy == "rr":
+                                c = min(enabled, key=lambda k: (last.get(k, -1), k))
+                            elif policy == "random":
+                                c = rng.choice(enabled)
+                            else:
+                                c = enabled[0] if policy == "lowest" else enabled[-1]
+                            last[c] = step
+                            chosen.append(c)
+                            sender.release(c)
+                        for t in tasks:
+                            if not t.done():
+                                t.cancel()
+
+                    loop = asyncio.new_event_loop()
+                    try:
+                        with OL.with_clock([1000 + k for k in range(4000)]):
+                            loop.run_until_complete(main())
+                    finally:
+                        loop.close()
+                    res.evaluations += 1
+                    res.count(f"after-restart:{nops}-ops:{policy}")
+                    case = {"suite": "after-restart", "level": level, "ops": [list(op) for op in ops], "policy": policy, "schedule": chosen}
+                    for i, op in enumerate(ops):
+                        if results[i] != solo[repr(op)]:
+                            res.violate("after-restart", case, {"op": i, "solo": solo[repr(op)]}, {"op": i, "got": results[i]},
+                                        "an operation started after an engine restart, next to others, did not return its solo result",
+                                        {"kind": "conc-after-restart"})
+                            break
+
+
 def run(ctx):
     res = Result()
+    _after_restart(ctx, res)
     sets = []
     rng = ctx.rng
     # small sets, fully enumerated (bounded)
